@@ -93,7 +93,7 @@ VARIABLES
     gone,                 \* subjects the subject manager does not know (any more)
     rec,                  \* <<svc,subject>> -> discovery_presentation_refresh row
     err,                  \* <<svc,subject>> -> a discovery_presentation_error row exists
-    srv, ver,             \* <<svc,did>> -> the server's entry / number of presentations it accepted
+    srv,                  \* <<svc,did>> -> the server's entry: the latest presentation it accepted (id = how many)
     loc,                  \* <<svc,did>> -> the client's local copy of the entry
     loop,                 \* the refresh round in flight: candidates read, not yet processed
     api, env,             \* budgets
@@ -108,9 +108,9 @@ VARIABLES
     orphan,               \* Deactivate answered "ok" while a registration of the subject stayed listed
     hist
 
-vars == <<now, regUp, getUp, refuse, wallet, dead, gone, rec, err, srv, ver, loc, loop, api, env, ticked,
+vars == <<now, regUp, getUp, refuse, wallet, dead, gone, rec, err, srv, loc, loop, api, env, ticked,
           out, res, deact, lastRes, lastPar, fails, orphan, hist>>
-view == <<now, regUp, getUp, refuse, wallet, dead, gone, rec, err, srv, ver, loc, loop, api, env, ticked,
+view == <<now, regUp, getUp, refuse, wallet, dead, gone, rec, err, srv, loc, loop, api, env, ticked,
           out, res, deact, lastRes, lastPar, fails, orphan>>
 
 Log(e) == hist' = IF Hist THEN Append(hist, e) ELSE hist
@@ -133,7 +133,7 @@ Init ==
     /\ wallet = [d \in DIDs |-> d \in InitWallet]
     /\ dead = {} /\ gone = {}
     /\ rec = [c \in CS |-> NoRec] /\ err = [c \in CS |-> FALSE]
-    /\ srv = [k \in SD |-> None] /\ ver = [k \in SD |-> 0] /\ loc = [k \in SD |-> None]
+    /\ srv = [k \in SD |-> None] /\ loc = [k \in SD |-> None]
     /\ loop = Idle /\ api = 0 /\ env = 0 /\ ticked = FALSE
     /\ out = {} /\ res = "-" /\ deact = {}
     /\ lastRes = [c \in CS |-> "none"] /\ lastPar = [c \in CS |-> NoPar]
@@ -176,14 +176,13 @@ RegMsgs(svc, s, p) ==
     {[svc |-> svc, did |-> d, kind |-> "reg", ok |-> Accepts(svc, d), creds |-> Presented(d), par |-> p, jti |-> 0]
         : d \in Attempted(svc, s)}
 
-NewReg(svc, d, p) == [id |-> ver[<<svc, d>>] + 1, exp |-> now + ExpiryOffset(Validity(svc)), kind |-> "reg", par |-> p]
+NewReg(svc, d, p) == [id |-> srv[<<svc, d>>].id + 1, exp |-> now + ExpiryOffset(Validity(svc)), kind |-> "reg", par |-> p]
 
 \* effect of the POSTs of one activate() on the server and on the failure counters
 Register(svc, s, p, o) ==
     LET acc == IF Sends(o) THEN Accepted(svc, s) ELSE {}
         rej == IF Sends(o) THEN Rejected(svc, s) ELSE {}
     IN /\ srv' = [k \in SD |-> IF k[1] = svc /\ k[2] \in acc THEN NewReg(svc, k[2], p) ELSE srv[k]]
-       /\ ver' = [k \in SD |-> IF k[1] = svc /\ k[2] \in acc THEN ver[k] + 1 ELSE ver[k]]
        /\ fails' = [k \in SD |->
                       IF k[1] # svc \/ Owner(k[2]) # s \/ o = "skipped" THEN fails[k]
                       ELSE IF k[2] \in acc THEN 0
@@ -236,9 +235,8 @@ Deactivate(svc, s) ==
           /\ err' = IF known /\ DeleteRecordOnDeactivate THEN [err EXCEPT ![c] = FALSE] ELSE err   \* foreign key, on delete cascade
           /\ srv' = IF ~known THEN srv
                     ELSE [k \in SD |-> IF k[1] = svc /\ k[2] \in okd
-                                       THEN [id |-> ver[k] + 1, exp |-> now + ExpiryOffset(Validity(svc)), kind |-> "ret", par |-> NoPar]
+                                       THEN [id |-> srv[k].id + 1, exp |-> now + ExpiryOffset(Validity(svc)), kind |-> "ret", par |-> NoPar]
                                        ELSE srv[k]]
-          /\ ver' = IF ~known THEN ver ELSE [k \in SD |-> IF k[1] = svc /\ k[2] \in okd THEN ver[k] + 1 ELSE ver[k]]
           /\ loc' = IF known THEN l ELSE loc
           /\ out' = IF ~known THEN {}
                     ELSE {[svc |-> svc, did |-> d, kind |-> "ret", ok |-> d \in okd, creds |-> {}, par |-> NoPar, jti |-> l[<<svc, d>>].id]
@@ -259,7 +257,7 @@ RefreshStart ==
     /\ loop' = [phase |-> "running", todo |-> {[c |-> c, par |-> rec[c].par] : c \in {x \in CS : Due(rec[x])}}]
     /\ out' = {} /\ res' = "-"
     /\ Log([a |-> "RefreshStart"])
-    /\ UNCHANGED <<now, regUp, getUp, refuse, wallet, dead, gone, rec, err, srv, ver, loc, api, env, ticked,
+    /\ UNCHANGED <<now, regUp, getUp, refuse, wallet, dead, gone, rec, err, srv, loc, api, env, ticked,
                    deact, lastRes, lastPar, fails, orphan>>
 
 RefreshOne(t) ==
@@ -298,7 +296,7 @@ RefreshSync ==
     /\ ticked' = TRUE
     /\ out' = {} /\ res' = "-"
     /\ Log([a |-> "RefreshSync"])
-    /\ UNCHANGED <<now, regUp, getUp, refuse, wallet, dead, gone, rec, err, srv, ver, api, env,
+    /\ UNCHANGED <<now, regUp, getUp, refuse, wallet, dead, gone, rec, err, srv, api, env,
                    deact, lastRes, lastPar, fails, orphan>>
 
 \* all state is in SQL: a new Module on the same database only loses the round in flight
@@ -307,7 +305,7 @@ Restart ==
     /\ loop.phase = "idle"
     /\ out' = {} /\ res' = "-"
     /\ Log([a |-> "Restart"])
-    /\ UNCHANGED <<now, regUp, getUp, refuse, wallet, dead, gone, rec, err, srv, ver, loc, loop, api, ticked,
+    /\ UNCHANGED <<now, regUp, getUp, refuse, wallet, dead, gone, rec, err, srv, loc, loop, api, ticked,
                    deact, lastRes, lastPar, fails, orphan>>
 
 (***************************************************************************)
@@ -321,47 +319,47 @@ Advance ==
     /\ TimelyTicks => (ticked /\ loop.phase = "idle")
     /\ now' = now + TickLen /\ ticked' = FALSE
     /\ Quiet /\ Log([a |-> "Advance"])
-    /\ UNCHANGED <<regUp, getUp, refuse, wallet, dead, gone, rec, err, srv, ver, loc, loop, api, env,
+    /\ UNCHANGED <<regUp, getUp, refuse, wallet, dead, gone, rec, err, srv, loc, loop, api, env,
                    deact, lastRes, lastPar, fails, orphan>>
 
 ToggleReg ==
     /\ EnvStep /\ regUp' = ~regUp
     /\ Quiet /\ Log([a |-> "ToggleReg"])
-    /\ UNCHANGED <<now, getUp, refuse, wallet, dead, gone, rec, err, srv, ver, loc, loop, api, ticked,
+    /\ UNCHANGED <<now, getUp, refuse, wallet, dead, gone, rec, err, srv, loc, loop, api, ticked,
                    deact, lastRes, lastPar, fails, orphan>>
 
 ToggleGet ==
     /\ EnvStep /\ getUp' = ~getUp
     /\ Quiet /\ Log([a |-> "ToggleGet"])
-    /\ UNCHANGED <<now, regUp, refuse, wallet, dead, gone, rec, err, srv, ver, loc, loop, api, ticked,
+    /\ UNCHANGED <<now, regUp, refuse, wallet, dead, gone, rec, err, srv, loc, loop, api, ticked,
                    deact, lastRes, lastPar, fails, orphan>>
 
 Refuse(d) ==
     /\ EnvStep /\ d \in Refusable
     /\ refuse' = IF d \in refuse THEN refuse \ {d} ELSE refuse \cup {d}
     /\ Quiet /\ Log([a |-> "Refuse", d |-> d])
-    /\ UNCHANGED <<now, regUp, getUp, wallet, dead, gone, rec, err, srv, ver, loc, loop, api, ticked,
+    /\ UNCHANGED <<now, regUp, getUp, wallet, dead, gone, rec, err, srv, loc, loop, api, ticked,
                    deact, lastRes, lastPar, fails, orphan>>
 
 WalletFlip(d) ==
     /\ EnvStep /\ d \in WalletVar
     /\ wallet' = [wallet EXCEPT ![d] = ~@]
     /\ Quiet /\ Log([a |-> "WalletFlip", d |-> d])
-    /\ UNCHANGED <<now, regUp, getUp, refuse, dead, gone, rec, err, srv, ver, loc, loop, api, ticked,
+    /\ UNCHANGED <<now, regUp, getUp, refuse, dead, gone, rec, err, srv, loc, loop, api, ticked,
                    deact, lastRes, lastPar, fails, orphan>>
 
 KillDID(d) ==
     /\ EnvStep /\ d \in Killable \ dead
     /\ dead' = dead \cup {d}
     /\ Quiet /\ Log([a |-> "KillDID", d |-> d])
-    /\ UNCHANGED <<now, regUp, getUp, refuse, wallet, gone, rec, err, srv, ver, loc, loop, api, ticked,
+    /\ UNCHANGED <<now, regUp, getUp, refuse, wallet, gone, rec, err, srv, loc, loop, api, ticked,
                    deact, lastRes, lastPar, fails, orphan>>
 
 RemoveSubject(s) ==
     /\ EnvStep /\ s \in Removable \ gone
     /\ gone' = gone \cup {s}
     /\ Quiet /\ Log([a |-> "RemoveSubject", s |-> s])
-    /\ UNCHANGED <<now, regUp, getUp, refuse, wallet, dead, rec, err, srv, ver, loc, loop, api, ticked,
+    /\ UNCHANGED <<now, regUp, getUp, refuse, wallet, dead, rec, err, srv, loc, loop, api, ticked,
                    deact, lastRes, lastPar, fails, orphan>>
 
 Next ==
@@ -389,7 +387,7 @@ TypeOK ==
     /\ wallet \in [DIDs -> BOOLEAN]
     /\ \A c \in CS : rec[c] \in [on : BOOLEAN, next : Nat, par : Params \cup {NoPar}]
     /\ err \in [CS -> BOOLEAN]
-    /\ \A k \in SD : srv[k] \in Entry /\ loc[k] \in Entry /\ ver[k] \in Nat /\ fails[k] \in 0..Cap
+    /\ \A k \in SD : srv[k] \in Entry /\ loc[k] \in Entry /\ fails[k] \in 0..Cap
     /\ loop.phase \in {"idle", "running"}
     /\ deact \subseteq CS
 
